@@ -193,6 +193,8 @@ class Ref:
         n = len(toks)
         sets = []
         start_items = {(-1, 0, 0)}   # pseudo rule -1: $S -> . S
+        if self.implicit_error_rule:
+            start_items.add((-2, 0, 0))   # pseudo rule -2: $S -> . error
         cur = start_items
         for k in range(n + 1):
             # closure
@@ -200,7 +202,7 @@ class Ref:
             work = list(S)
             while work:
                 ri, dot, org = work.pop()
-                rhs = [self.start] if ri == -1 else rules[ri].rhs
+                rhs = self._rhs(ri)
                 if dot < len(rhs):
                     sym = rhs[dot]
                     if not self.is_term(sym):
@@ -211,18 +213,18 @@ class Ref:
                                 work.append(it)
                         # completed items of this very set (nullable)
                         for (r2, d2, o2) in list(S):
-                            if o2 == k and r2 != -1 and rules[r2].lhs == sym and d2 == len(rules[r2].rhs):
+                            if o2 == k and r2 >= 0 and rules[r2].lhs == sym and d2 == len(rules[r2].rhs):
                                 it = (ri, dot + 1, org)
                                 if it not in S:
                                     S.add(it)
                                     work.append(it)
                 else:
-                    if ri == -1:
+                    if ri < 0:
                         continue
                     lhs = rules[ri].lhs
                     src = S if org == k else sets[org]
                     for (r2, d2, o2) in list(src):
-                        rhs2 = [self.start] if r2 == -1 else rules[r2].rhs
+                        rhs2 = self._rhs(r2)
                         if d2 < len(rhs2) and rhs2[d2] == lhs:
                             it = (r2, d2 + 1, o2)
                             if it not in S:
@@ -234,7 +236,7 @@ class Ref:
             t = toks[k]
             nxt = set()
             for (ri, dot, org) in S:
-                rhs = [self.start] if ri == -1 else rules[ri].rhs
+                rhs = self._rhs(ri)
                 if dot < len(rhs) and rhs[dot] == t:
                     nxt.add((ri, dot + 1, org))
             if not nxt and stop_at_empty:
@@ -243,8 +245,15 @@ class Ref:
             cur = nxt
         return sets
 
+    def _rhs(self, ri):
+        if ri == -1:
+            return [self.start]
+        if ri == -2:
+            return [ERR]
+        return self.rules[ri].rhs
+
     def accepts_sets(self, sets, n):
-        return len(sets) == n + 1 and (-1, 1, 0) in sets[n]
+        return len(sets) == n + 1 and ((-1, 1, 0) in sets[n] or (-2, 1, 0) in sets[n])
 
     def sentence(self, toks):
         s = self.earley_sets(toks)
@@ -276,6 +285,46 @@ class Ref:
         self.capped = False
         self.cyclic = False
         self._split = {}
+        self._derivable()
+
+    def _derivable(self):
+        """D[(A,i,j)] for all nonterminals and spans: least fixpoint, by span
+        length, with an inner fixpoint for equal spans (nullable and unit
+        contexts)."""
+        n = self.n
+        D = self._D = set()
+        names = [t[0] for t in self.toks]
+        rules = self.rules
+        is_term = self.is_term
+
+        def rule_derives(r, i, j):
+            cur = {i}
+            for s in r.rhs:
+                nxt = set()
+                if is_term(s):
+                    for p in cur:
+                        if p < j and names[p] == s:
+                            nxt.add(p + 1)
+                else:
+                    for p in cur:
+                        for q in range(p, j + 1):
+                            if (s, p, q) in D:
+                                nxt.add(q)
+                cur = nxt
+                if not cur:
+                    return False
+            return j in cur
+
+        for L in range(0, n + 1):
+            for i in range(0, n - L + 1):
+                j = i + L
+                changed = True
+                while changed:
+                    changed = False
+                    for r in rules:
+                        if (r.lhs, i, j) not in D and rule_derives(r, i, j):
+                            D.add((r.lhs, i, j))
+                            changed = True
 
     def _splits(self, ri, k, i, j):
         """All tuples of boundaries (b_k=i, ..., b_n=j) such that rhs[k:]
@@ -298,10 +347,8 @@ class Ref:
             else:
                 last = (k == len(rhs) - 1)
                 for m in ([j] if last else range(i, j + 1)):
-                    # cheap test first
-                    rest = self._splits(ri, k + 1, m, j)
-                    if rest and self.N(s, i, m) > 0:
-                        for x in rest:
+                    if (s, i, m) in self._D:
+                        for x in self._splits(ri, k + 1, m, j):
                             out.append((i,) + x)
         self._split[key] = out
         return out
